@@ -309,12 +309,20 @@ def generate(repo):
                 continue
             lhs, rhs = arm.split("=>", 1)
             val = eval_score(rhs, consts)
-            if val is None or re.search(r"\bif\b", lhs):
+            # a `#[cfg(feature = ..)]` attribute on an arm is accepted when every pattern of the arm lies
+            # under a variant that is itself feature-gated (the arm then exists exactly when its
+            # variants do, so it reads like an ungated arm); any other attribute is unreadable
+            gated_arm = False
+            am = re.match(r"\s*#\[cfg\(\s*feature\s*=[^\]]*\)\]", lhs)
+            if am:
+                gated_arm = True
+                lhs = lhs[am.end():]
+            if val is None or re.search(r"\bif\b", lhs) or "#[" in lhs:
                 missing.append(("C10_ERROR_SCORE_ARMS", ADDR, "unreadable arm: " + arm.strip()[:60]))
                 continue
             for pat in split_top(lhs, "|"):
                 path = pattern_path(pat, tables)
-                if path is None:
+                if path is None or (gated_arm and not any(path[:len(g)] == g for g, _ in gates)):
                     missing.append(("C10_ERROR_SCORE_ARMS", ADDR, "unreadable pattern: " + pat.strip()[:60]))
                 else:
                     arms.append((path, val))
